@@ -151,3 +151,30 @@ fn k_find_entry_index1() { find_entry_contract(true); }
 #[kani::unwind(5)]
 #[kani::stub(SqPackIndex::calculate_hash, model_calculate_hash)]
 fn k_find_entry_index2() { find_entry_contract(false); }
+
+// ASCII-only model of str::to_lowercase (the property's domain is ASCII game paths; std's Unicode tables time CBMC out)
+fn ascii_lower_model(s: &str) -> String {
+    let b = s.as_bytes();
+    let mut v: Vec<u8> = Vec::with_capacity(b.len());
+    let mut i = 0;
+    while i < b.len() { v.push(b[i].to_ascii_lowercase()); i += 1; }
+    unsafe { String::from_utf8_unchecked(v) }
+}
+
+//@unit props=C01,C12 label=B tier=thorough fn=sqpack::index::SqPackIndex::calculate_partial_hash bound="ASCII strings of exactly 3 bytes; str::to_lowercase replaced by an ASCII model" stubs=to_lowercase
+//@desc the partial path hash is the JAMCRC of the lower-cased bytes, hence insensitive to letter case
+#[kani::proof]
+#[kani::unwind(9)]
+#[kani::stub(str::to_lowercase, ascii_lower_model)]
+fn k_partial_hash_ascii3() {
+    let b: [u8; 3] = kani::any();
+    kani::assume(b[0] < 128 && b[1] < 128 && b[2] < 128);
+    let s = unsafe { std::str::from_utf8_unchecked(&b) };
+    let h = SqPackIndex::calculate_partial_hash(s);
+    let lower = [b[0].to_ascii_lowercase(), b[1].to_ascii_lowercase(), b[2].to_ascii_lowercase()];
+    assert!(h == spec_jamcrc(&lower), "JAMCRC of the lower-cased bytes");
+    let up = [b[0].to_ascii_uppercase(), b[1].to_ascii_uppercase(), b[2].to_ascii_uppercase()];
+    let h2 = SqPackIndex::calculate_partial_hash(unsafe { std::str::from_utf8_unchecked(&up) });
+    assert!(h2 == h, "case-insensitive");
+    kani::cover!(true, "reachable");
+}
